@@ -20,7 +20,7 @@ def oracle(ctx, case, heap, obs, desc):
                     e["ty"], e["val"][:30], e["trunc"], len(rec["text"])), desc, tag="truncflag")
         if e["trunc"] and len(e["val"]) != lim["max_str"]:
             ctx.fail("value marked truncated but %d characters long, the limit is %d" % (len(e["val"]), lim["max_str"]), desc, tag="truncflag")
-        if (e["ty"] in SEQ_TYPES or (rec is not None and isinstance(rec["obj"], Exception))) and len(e["children"]) > lim["max_coll"]:
+        if (e["ty"] in SEQ_TYPES or (rec is not None and issubclass(type(rec["obj"]), Exception))) and len(e["children"]) > lim["max_coll"]:
             ctx.fail("%s has %d children, max collection size is %d" % (e["ty"], len(e["children"]), lim["max_coll"]), desc, tag="collsize")
     d = e1.depths(obs)
     for vid, k in d.items():
